@@ -119,6 +119,8 @@ type world struct {
 	conformant bool
 	ntypes     int
 	active     []int // the types this exploration drives
+	// suppressed[t]: some response that was due for type t produced no message (NoSend event)
+	suppressed [3]bool
 }
 
 func newWorld(delta bool, active ...int) *world {
@@ -415,6 +417,13 @@ func (w *world) apply(e event) (v *verdict) {
 	if respond && !e.NoSend {
 		w.send(t) // sets lastOK=false: a response is now unseen
 	}
+	if respond && e.NoSend {
+		// the generator had nothing for this request: nothing is owed for the names it asked for
+		w.suppressed[t] = true
+		for _, n := range e.Names {
+			delete(c.pending, n)
+		}
+	}
 	// ---- every name a conformant client asked for has been covered by a response
 	if w.conformant && c.lastOK && !isWildcardType(t) && c.seen == len(w.sentNonces[t]) {
 		if p := sorted(c.pending); len(p) > 0 {
@@ -433,8 +442,11 @@ func (w *world) apply(e event) (v *verdict) {
 		}
 		skipNames := w.delta && t == 2 && cur != nil && cur.Wildcard // generator-managed wildcard stores no names by design
 		if !skipNames && fmt.Sprint(sorted(have)) != fmt.Sprint(sorted(c.want)) {
-			return &verdict{fmt.Sprintf("subscription-record:%s:%s", map[bool]string{false: "sotw", true: "delta"}[w.delta], typeShort[t]),
-				fmt.Sprintf("after %v the server records %v but the conformant client asked for %v", e, sorted(have), sorted(c.want))}
+			key := fmt.Sprintf("subscription-record:%s:%s", map[bool]string{false: "sotw", true: "delta"}[w.delta], typeShort[t])
+			if w.suppressed[t] {
+				key += ":after-suppressed-response"
+			}
+			return &verdict{key, fmt.Sprintf("after %v the server records %v but the conformant client asked for %v", e, sorted(have), sorted(c.want))}
 		}
 	}
 	return nil
@@ -443,7 +455,7 @@ func (w *world) apply(e event) (v *verdict) {
 // canon: everything that determines the futures, with nonces made relative.
 func (w *world) canon() string {
 	var b strings.Builder
-	fmt.Fprintf(&b, "conf=%v|", w.conformant)
+	fmt.Fprintf(&b, "conf=%v|supp=%v|", w.conformant, w.suppressed)
 	for t := 0; t < w.ntypes; t++ {
 		c := w.cl[t]
 		r := w.wr(t)
@@ -586,8 +598,11 @@ func ackLoop(delta bool, hist []event) *verdict {
 				}
 				continue
 			}
-			progress = true
-			_ = n0
+			// only a response keeps the exchange going (an ACK the server files as stale, e.g. after a
+			// suppressed response reset its nonce, is re-sent by this loop but answered by nothing)
+			if len(w.sentNonces[t]) > n0 {
+				progress = true
+			}
 		}
 		if !progress {
 			return nil
